@@ -107,6 +107,8 @@ class ElementWithVars(ElementBase, Generic[VarType], ABC):
 
     def step(self, *args, **kwargs) -> None:
         """Steps the dynamics of this element."""
+        if not self._states and self.states is None:
+            return  # state-less element (e.g., ideal origin): nothing to step
         assert self.states is not None, "States not initialized."
         next_states = self.step_dynamics(*args, **kwargs)
         if self.next_states is None:
